@@ -179,3 +179,108 @@ func VerifJSArith(n int) {
 	}
 	vReach("end")
 }
+
+// jCanonicalKey: is s the canonical string of a number (the only strings for which a["s"] and a[s as number] name the
+// same property): "0", or an integer without leading zeros, optionally a fraction without trailing zeros, at most 15
+// significant digits and below 1e21 (no exponent in the canonical form).
+func jCanonicalKey(s []byte) bool {
+	if len(s) == 0 {
+		return false
+	}
+	i := 0
+	for i < len(s) && s[i] >= '0' && s[i] <= '9' {
+		i++
+	}
+	if i == 0 || i > 1 && s[0] == '0' {
+		return false
+	}
+	digits := i
+	if i < len(s) {
+		if s[i] != '.' || i+1 == len(s) || s[len(s)-1] == '0' {
+			return false
+		}
+		for j := i + 1; j < len(s); j++ {
+			if s[j] < '0' || s[j] > '9' {
+				return false
+			}
+			digits++
+		}
+	}
+	return digits <= 15
+}
+
+// VerifJSIndexKey: x=a["K"] with K = n bytes over digits, '.', 'e', '-': a string key may only be written as a number
+// when it is the canonical string of that number (a["1.0"], a[".5"], a["01"] are other properties than a[1], a[.5]).
+func VerifJSIndexKey(n int) {
+	k := vBytes("k", n)
+	for _, c := range k {
+		vAssume(vB2I(c == '0')+vB2I(c == '1')+vB2I(c == '5')+vB2I(c == '9')+vB2I(c == '.')+vB2I(c == 'e')+vB2I(c == '-') != 0)
+	}
+	src := append(append([]byte("x=a[\""), k...), "\"];"...)
+	w := &vWriter{}
+	err := (&Minifier{}).Minify(nil, w, &vReader{b: append([]byte(nil), src...)}, nil)
+	vReach("after-call")
+	vOutput("out", w.buf)
+	vAssert(err == nil, "accepted")
+	out := w.buf
+	vAssert(len(out) >= 5 && string(out[:3]) == "x=a", "shape")
+	if out[3] == '[' && out[4] != '"' && out[4] != '\'' && out[4] != '`' {
+		// written as a number
+		j := 4
+		for j < len(out) && out[j] != ']' {
+			j++
+		}
+		num := out[4:j]
+		vAssert(refIsNumber(num, true), "numeric key")
+		vAssert(jCanonicalKey(k) && refSame(refParse(k), refParse(num)), "a string key is written as a number only when it is the canonical string of that number")
+	} else if out[3] == '[' {
+		j := 5
+		for j < len(out) && out[j] != out[4] {
+			j++
+		}
+		vAssert(string(out[5:j]) == string(k), "same string key")
+	}
+	vReach("end")
+}
+
+// VerifJSObjectKey: x={"K":1} with K as in VerifJSIndexKey: a string property name may only be written as a numeric
+// literal when it is the canonical string of that number.
+func VerifJSObjectKey(n int) {
+	k := vBytes("k", n)
+	for _, c := range k {
+		vAssume(vB2I(c == '0')+vB2I(c == '1')+vB2I(c == '5')+vB2I(c == '9')+vB2I(c == '.')+vB2I(c == 'e')+vB2I(c == '-') != 0)
+	}
+	src := append(append([]byte("x={\""), k...), "\":1};"...)
+	w := &vWriter{}
+	err := (&Minifier{}).Minify(nil, w, &vReader{b: append([]byte(nil), src...)}, nil)
+	vReach("after-call")
+	vOutput("out", w.buf)
+	vAssert(err == nil, "accepted")
+	out := w.buf
+	vAssert(len(out) >= 6 && string(out[:3]) == "x={", "shape")
+	if out[3] != '"' && out[3] != '\'' && out[3] != '`' {
+		j := 3
+		for j < len(out) && out[j] != ':' {
+			j++
+		}
+		num := out[3:j]
+		if num[0] == 'e' {
+			vAssert(string(num) == string(k), "identifier key spelled as the string")
+			vReach("end")
+			return
+		}
+		vAssert(refIsNumber(num, true), "numeric key")
+		if !(jCanonicalKey(k) && refSame(refParse(k), refParse(num))) {
+			vKnown("C01-F51") // recorded finding: the dependency's parser turns every string key that looks like a decimal literal into a numeric token
+			vFail("a string key is written as a number only when it is the canonical string of that number")
+		}
+		vReach("end")
+		return
+	}
+	j := 4
+	for j < len(out) && out[j] != out[3] {
+		j++
+	}
+	vAssert(string(out[4:j]) == string(k), "same string key")
+	vReach("end")
+}
